@@ -20,6 +20,8 @@ TYKIND = "chalk_ir::TyKind"
 
 
 def run(ck, facts, tier):
+    from shared import fixedpoint
+    fixedpoint.table(ck, facts, "C05.FIXED-POINT-TABLE", which=("stale",))
     # ------------------------------------------------------------------ COIND-TABLE
     R = "C05.COIND-TABLE"
     ck.rule(R, "K1 vs spec: IsCoinductive for Goal is true exactly for Implemented(tr) with is_auto_trait() || is_coinductive_trait(), "
